@@ -26,17 +26,7 @@ MULTIBYTE = [
 
 
 def validate(R, obs, name):
-    bad = []
-    shard = 4000
-    for s in range(0, len(obs), shard):
-        part = obs[s:s + shard]
-        path = R.path("obs", "%s-%d.ndjson" % (name, s))
-        vlib.write_ndjson(path, part)
-        res = R.tlc("PosCheck", "INIT Init\nNEXT Next\nINVARIANT Chk\n", env={"VERIF_OBS": path},
-                    name="%s-check%d" % (name, s), workers=1, timeout=3000)
-        if res.distinct != len(part):
-            raise vlib.MachineryError("PosCheck visited %d of %d" % (res.distinct, len(part)))
-        bad += [(s + p[1] - 1, p[2]) for p in res.prints if p and p[0] == "MISMATCH"]
+    bad = [(s + p[1] - 1, p[2]) for s, p in R.pvalidate("PosCheck", obs, 2000, name) if p[0] == "MISMATCH"]
     return sorted(bad)
 
 
